@@ -56,8 +56,10 @@ pub fn classify_windows(rows: &[HRow], model: &MResult, obs: &mut Obs) {
 }
 
 pub fn check_ledger_vs_model(case: &LedgerCase, obs: &mut Obs, what: &CmpWhat, classify: fn(&[HRow], &MResult, &mut Obs)) -> Verdict {
-    let files = case.files();
-    let csv = &files[0].1;
+    // a third of the histories are handed over as two or three files (same row order)
+    let files = case.files_maybe_split();
+    let csv_joined: String = if files.len() == 1 { files[0].1.clone() } else { files.iter().map(|(n, t)| format!("--- {n}\n{t}")).collect() };
+    let csv = &csv_joined;
     let res = match run_deltas(&files, &case.run_opts()) {
         Ok(r) => r,
         Err(RunErr::Panic(p)) => return classify_panic(&p, csv),
@@ -127,8 +129,10 @@ fn classify_declared(rows: &[HRow], model: &MResult, obs: &mut Obs) {
 
 fn check_declared(case: &LedgerCase, obs: &mut Obs) -> Verdict {
     // accept/reject outcome for declared values is part of the property: compare it too
-    let files = case.files();
-    let csv = &files[0].1;
+    // a third of the histories are handed over as two or three files (same row order)
+    let files = case.files_maybe_split();
+    let csv_joined: String = if files.len() == 1 { files[0].1.clone() } else { files.iter().map(|(n, t)| format!("--- {n}\n{t}")).collect() };
+    let csv = &csv_joined;
     let res = match run_deltas(&files, &case.run_opts()) {
         Ok(r) => r,
         Err(RunErr::Panic(p)) => return classify_panic(&p, csv),
